@@ -537,3 +537,109 @@ pub fn for_each_skeleton(max_len: usize, mut f: impl FnMut(u64, &[Sk])) {
 pub fn all_kinds() -> &'static [Kind] {
     &ALL_KINDS
 }
+
+/// Messages as real peers send them: attributes that belong together and repeat each other's
+/// information (MAPPED-ADDRESS and XOR-MAPPED-ADDRESS naming the same address, an error code with
+/// the attributes that code calls for, ICE connectivity checks, a relayed message nested in a DATA
+/// attribute), sealed the way such messages are.  `variant` selects the shape (0..REALISTIC_VARIANTS).
+pub const REALISTIC_VARIANTS: u32 = 10;
+pub fn gen_realistic_message(rng: &mut Rng, variant: u32) -> (Vec<u8>, RefCreds) {
+    use crate::refimpl::attrs::{RefAddr, RefVal};
+    let tid = gen_tid(rng);
+    let creds = if rng.chance(1, 2) { RefCreds::Short("realistic-pw".into()) } else { RefCreds::Long("alice".into(), "example.org".into(), "pass:word".into()) };
+    let key = creds.key();
+    let addr = |rng: &mut Rng, v6: bool| {
+        let mut ip = [0u8; 16];
+        for b in ip.iter_mut().take(if v6 { 16 } else { 4 }) {
+            *b = rng.byte();
+        }
+        RefAddr { v6, ip, port: 1024 + (rng.next() as u16 % 60000) }
+    };
+    let enc = |k: Kind, v: RefVal, tid: &[u8; 12]| ref_encode(k, &v, tid).expect("encodable");
+    let v6 = rng.chance(1, 2);
+    let mut tlvs: Vec<Tlv> = vec![];
+    let (class, method, mut seals): (u8, u16, Vec<Seal>) = match variant % REALISTIC_VARIANTS {
+        0 => {
+            // classic + RFC 5389 Binding success: both address attributes name the same address
+            let a = addr(rng, v6);
+            tlvs.push(Tlv::new(0x0001, enc(Kind::AlternateServer, RefVal::Addr(a.clone()), &tid)));
+            tlvs.push(Tlv::new(0x0020, enc(Kind::XorMappedAddress, RefVal::Addr(a), &tid)));
+            if rng.chance(1, 2) {
+                tlvs.push(Tlv::new(0x8022, b"test vector".to_vec()));
+            }
+            (2, 1, if rng.chance(1, 2) { vec![Seal::Sha1] } else { vec![] })
+        }
+        1 => {
+            // the same in the other order, with the draft code point as well
+            let a = addr(rng, v6);
+            tlvs.push(Tlv::new(0x0020, enc(Kind::XorMappedAddress, RefVal::Addr(a.clone()), &tid)));
+            tlvs.push(Tlv::new(0x8020, enc(Kind::XorMappedAddress, RefVal::Addr(a.clone()), &tid)));
+            tlvs.push(Tlv::new(0x0001, enc(Kind::AlternateServer, RefVal::Addr(a), &tid)));
+            (2, 1, vec![])
+        }
+        2 => {
+            // NAT behaviour discovery response
+            let a = addr(rng, v6);
+            tlvs.push(Tlv::new(0x0020, enc(Kind::XorMappedAddress, RefVal::Addr(a.clone()), &tid)));
+            tlvs.push(Tlv::new(0x0001, enc(Kind::AlternateServer, RefVal::Addr(a), &tid)));
+            tlvs.push(Tlv::new(0x802b, enc(Kind::AlternateServer, RefVal::Addr(addr(rng, v6)), &tid)));
+            tlvs.push(Tlv::new(0x802c, enc(Kind::AlternateServer, RefVal::Addr(addr(rng, v6)), &tid)));
+            (2, 1, vec![])
+        }
+        3 => {
+            // ICE connectivity check
+            tlvs.push(Tlv::new(0x0006, b"rfrag:lfrag".to_vec()));
+            tlvs.push(Tlv::new(0x0024, enc(Kind::Priority, RefVal::U32(0x6e00_01ff), &tid)));
+            tlvs.push(Tlv::new(0x802a, enc(Kind::IceControlling, RefVal::U64(rng.next()), &tid)));
+            if rng.chance(1, 2) {
+                tlvs.push(Tlv::new(0x0025, vec![]));
+            }
+            (0, 1, vec![Seal::Sha1])
+        }
+        4 => {
+            tlvs.push(Tlv::new(0x0009, enc(Kind::ErrorCode, RefVal::Error { code: 401, reason: "Unauthorized".into() }, &tid)));
+            tlvs.push(Tlv::new(0x0014, b"example.org".to_vec()));
+            tlvs.push(Tlv::new(0x0015, b"obMatJos2AAACf//499k954d6OL34oL9FSTvy64sA".to_vec()));
+            tlvs.push(Tlv::new(0x8002, enc(Kind::PasswordAlgorithms, RefVal::Algos(vec![1, 2]), &tid)));
+            (3, 1, vec![])
+        }
+        5 => {
+            tlvs.push(Tlv::new(0x0009, enc(Kind::ErrorCode, RefVal::Error { code: 300, reason: "Try Alternate".into() }, &tid)));
+            tlvs.push(Tlv::new(0x8023, enc(Kind::AlternateServer, RefVal::Addr(addr(rng, v6)), &tid)));
+            tlvs.push(Tlv::new(0x8003, b"alt.example.org".to_vec()));
+            (3, 1, vec![Seal::Sha256(32)])
+        }
+        6 => {
+            tlvs.push(Tlv::new(0x0009, enc(Kind::ErrorCode, RefVal::Error { code: 420, reason: "Unknown Attribute".into() }, &tid)));
+            tlvs.push(Tlv::new(0x000a, enc(Kind::UnknownAttributes, RefVal::TypeList(vec![0x7f01, 0x0022, 0x7f02]), &tid)));
+            (3, 1, vec![])
+        }
+        7 => {
+            // long-term request
+            tlvs.push(Tlv::new(0x001e, rng.bytes(32)));
+            tlvs.push(Tlv::new(0x0014, b"example.org".to_vec()));
+            tlvs.push(Tlv::new(0x0015, b"obMatJos2AAACf//499k954d6OL34oL9FSTvy64sA".to_vec()));
+            tlvs.push(Tlv::new(0x001d, enc(Kind::PasswordAlgorithm, RefVal::Algo(2), &tid)));
+            (0, 1, vec![Seal::Sha256(32)])
+        }
+        8 => {
+            // TURN Data indication relaying a fingerprinted ICE check from a peer
+            let (inner, _) = gen_realistic_message(rng, 3);
+            tlvs.push(Tlv::new(0x0012, enc(Kind::XorMappedAddress, RefVal::Addr(addr(rng, v6)), &tid)));
+            tlvs.push(Tlv::new(0x0013, inner));
+            (1, 7, vec![])
+        }
+        _ => {
+            // both integrity attributes (RFC 8489 transition) on a Binding success
+            let a = addr(rng, v6);
+            tlvs.push(Tlv::new(0x0020, enc(Kind::XorMappedAddress, RefVal::Addr(a), &tid)));
+            (2, 1, vec![Seal::Sha1, Seal::Sha256(32)])
+        }
+    };
+    seals.push(Seal::Fingerprint);
+    let mut b = encode(class, method, &tid, &tlvs);
+    for s in seals {
+        seal(&mut b, s, &key);
+    }
+    (b, creds)
+}
